@@ -19,7 +19,7 @@ from ..coqrun import cN, cZ, cbool, clist
 from ..tok import S
 
 PID = "C18"
-COQ_HEADER = ("From Coq Require Import List NArith ZArith.\nFrom SK Require Import lib.Tok model.C18_Model model.C18_AttrModel model.C18_WLModel.\n"
+COQ_HEADER = ("From Coq Require Import List NArith ZArith.\nFrom SK Require Import lib.Tok model.C18_Model model.C18_AttrModel model.C18_WLModel model.C18_BackendModel.\n"
               "Import ListNotations.\n")
 SHARD = 60
 IMPL_TIMEOUT = 1500
@@ -151,10 +151,13 @@ def _premises(G):
     return bool(ok)
 
 
-def _wl_obs(H, rank, inc, stoich, kw):
+def _wl_obs(H, rank, inc, stoich, kw, keep=None):
     """WL colour cells and the automorphism estimate (the WL canonical relabelling depends on digest values: oracle only)"""
     from synkit.CRN.Topo.wl_canon import WLCanonicalizer
-    W = WLCanonicalizer(H, include_rule=inc, include_stoich=stoich, **kw).summary()
+    WW = WLCanonicalizer(H, include_rule=inc, include_stoich=stoich, **kw)
+    W = WW.summary()
+    if keep is not None:
+        keep["W"] = WW
     return [S([S(sorted(rank[v] for v in o)) for o in W["orbits"]]), W["automorphism_count"]]
 
 
@@ -179,6 +182,7 @@ def _impl_H(H, view, stoich, intids=False, keep=None):
 
     C._refine = wrapped
     s = C.summary()
+    C._refine = orig          # the analyzer may be kept and read again later (on another network): log the first analysis only
     nodes, arcs = _keyed_graph(G, rank)
     cn, ca = _keyed_graph(s["canon_graph"])
     AA = CRNAutomorphism(H, include_rule=inc, include_stoich=stoich, integer_ids=intids)
@@ -195,7 +199,7 @@ def _impl_H(H, view, stoich, intids=False, keep=None):
             A["automorphism_count"],
             S([S(sorted(rank[v] for v in o)) for o in A["orbits"]]),
             _premises(G),
-            [S([[rank[k], rank[v]] for k, v in m.items()]) for m in s["mappings"]]] + _wl_obs(H, rank, inc, stoich, dict(integer_ids=intids))
+            [S([[rank[k], rank[v]] for k, v in m.items()]) for m in s["mappings"]]] + _wl_obs(H, rank, inc, stoich, dict(integer_ids=intids), keep)
 
 
 def _add_extra(H, net0, net1):
@@ -312,15 +316,19 @@ def _scribble_results(keep):
         m.clear()
 
 
-def _run_history(case, analyse, reread=None):
+def _run_history(case, analyse, reread=None, on_read=None):
     """ONE hypergraph object; ops = analyses (each on fresh analyzers), in-place edits of the hypergraph, edits of earlier
     results by the caller, repeated reads of an earlier analyzer.  analyse(H, net_value, view, st, intids, keep) is called for
-    every analysis; returns the list of its results"""
+    every analysis; returns the list of its results.  on_read(keep) is called at every read of the kept analyzers that the
+    backend state machine of the model tracks (_hist_plan)"""
     net = case["nets"][0]
     H = _build(net)
     keep = {}
     out = []
-    for op in case["ops"]:
+    plan = _hist_plan(case)[2] if on_read is not None else None
+    for k_op, op in enumerate(case["ops"]):
+        if k_op > 0 and plan is not None and plan[k_op - 1]:
+            on_read(keep)
         if op[0] == "an":
             keep = {}
             out.append(analyse(H, net, op[1], op[2], op[3], keep))
@@ -341,6 +349,68 @@ def _run_history(case, analyse, reread=None):
         else:
             _do_op(H, op)
             net = _apply_op(net, op)
+    if plan is not None and plan and plan[-1]:
+        on_read(keep)
+    return out
+
+
+def _hist_plan(case):
+    """the script of a history as the backend state machine of coq/model/C18_BackendModel.v sees it: every analysis creates
+    analyzers (SNew) and reads them (SRead); `reuse` / `reread` read the kept analyzers again; replace / add / rmsp are calls of
+    mutating methods (EMethod: the version is bumped), coeff edits a side object behind the hypergraph's back (ESilent).
+    Reads are tracked while the kept analyzers are modelled (integer_ids=False) and the caller has not scribbled on their view.
+    Returns (rank table over ALL names of the history, Gallina steps, per op: a tracked read happens after it)"""
+    nets = [case["nets"][0]]
+    for op in case["ops"]:
+        if op[0] not in ("an", "scribble", "reuse", "reread"):
+            nets.append(_apply_op(nets[-1], op))
+    names = set()
+    for n in nets:
+        H = _build(n)
+        names |= set(H.species) | set(H.edges.keys())
+    rank = {n: i for i, n in enumerate(sorted(names))}
+    steps, plan = [], []
+    tracked, dirty, nnew = False, False, 0
+    net = nets[0]
+    for op in case["ops"]:
+        read = False
+        if op[0] == "an":
+            tracked, dirty = (not op[3]), False
+            if tracked:
+                steps.append("SNew %s %s" % (cbool(op[1] == "bip"), cbool(op[2])))
+                nnew += 1
+                steps.append("SRead %d" % (nnew - 1))
+                read = True
+        elif op[0] == "scribble":
+            dirty = True
+        elif op[0] in ("reuse", "reread"):
+            if tracked and not dirty:
+                steps.append("SRead %d" % (nnew - 1))
+                read = True
+        else:
+            net = _apply_op(net, op)
+            if op[0] == "coeff":
+                steps.append("SEdit (ESilent %s)" % _coq_net(net, rank=rank))
+            else:
+                steps.append("SEdit (EMethod %s 0%%N)" % _coq_net(net, rank=rank))
+        plan.append(read)
+    return rank, steps, plan
+
+
+def _read_obs(keep, rank):
+    """what the kept analyzers serve now: the canonicaliser's view, count, orbits, canonical graph; the VF2 tool's count and orbits;
+    the WL cells and estimate.  The three analyzers share one backend class: their views must agree"""
+    C, A, W = keep["C"], keep["A"], keep["W"]
+    s = C.summary()
+    a = A.summary(max_count=10 ** 9, timeout_sec=None)
+    w = W.summary()
+    nodes, arcs = _keyed_graph(C.G, rank)
+    cn, ca = _keyed_graph(s["canon_graph"])
+    out = [S(nodes), S(arcs), s["automorphism_count"], S([S(sorted(rank[v] for v in o)) for o in s["orbits"]]), S(cn), S(ca),
+           a["automorphism_count"], S([S(sorted(rank[v] for v in o)) for o in a["orbits"]]),
+           S([S(sorted(rank[v] for v in o)) for o in w["orbits"]]), w["automorphism_count"]]
+    if _keyed_graph(A.G, rank) != (nodes, arcs) or _keyed_graph(W.G, rank) != (nodes, arcs):
+        out.append("the analyzers of one analysis serve different views")
     return out
 
 
@@ -424,7 +494,11 @@ def impl(case):
     if case.get("attrs"):
         return _impl_attrs(case)
     if case.get("ops"):
-        return _run_history(case, lambda H, net, view, st, intids, keep: _impl_H(H, view, st, intids, keep))
+        rank = _hist_plan(case)[0]
+        reads = []
+        out = _run_history(case, lambda H, net, view, st, intids, keep: _impl_H(H, view, st, intids, keep),
+                           on_read=lambda keep: reads.append(_read_obs(keep, rank)))
+        return out + [reads]
     if case.get("steps"):
         return _impl_seq(case)
     return [_impl_net(n, case["view"], case["stoich"], case.get("intids", False)) for n in case["nets"]]
@@ -432,9 +506,9 @@ def impl(case):
 
 # ------------------------------------------------------------------ model encoder
 
-def _coq_net(net, view="bip", intids=False):
+def _coq_net(net, view="bip", intids=False, rank=None):
     H = _build(net)
-    rank = _table(H, view, intids)
+    rank = _table(H, view, intids) if rank is None else rank
     sp = clist([cN(rank[s]) for s in sorted(H.species)])
     rx = []
     for eid, e in H.edges.items():
@@ -466,6 +540,8 @@ def coq_case(case):
     if case.get("ops"):
         terms = ["run_net_wl %s %s %s" % (cbool(view == "bip"), cbool(st), _coq_net(net, view, intids))
                  for net, view, st, intids in _history_nets(case)]
+        rank, steps, _ = _hist_plan(case)
+        terms.append("run_history %s %s" % (_coq_net(case["nets"][0], rank=rank), clist(steps)))
         return "L %s" % clist(terms)
     if case.get("steps"):
         terms = ["run_net_wl %s %s %s" % (cbool(view == "bip"), cbool(st), _coq_net(net, view, intids))
@@ -895,6 +971,8 @@ def distribution(cases, obss):
         if not (isinstance(obs, list) and obs and isinstance(obs[0], list) and len(obs[0]) == 16):
             continue
         for o in obs:
+            if not (isinstance(o, list) and len(o) == 16):
+                continue           # the list of re-reads of a history
             nets += 1
             n = len(o[0]["__set__"])
             sizes[n] = sizes.get(n, 0) + 1
@@ -1276,6 +1354,13 @@ def _hist_cases(rng, nrand):
         (base, [A("bip", True, True), ["replace", "e2", "r", [["C", 1]], [["B", 1]]], A("bip", True, True), A("bip", False, True), A()]),
         (sym, [A("sp"), ["replace", "e1", "r", [["C", 1]], [["A", 1]]], A("sp"), ["rmsp", "A"], A("sp"), A()]),
         ([["e1", "r", [["A", 1]], [["A", 1]]]], [A(), A("sp"), ["coeff", "e1", 1, "A", 2], A(), A("sp"), ["rmsp", "A"], A(), A("sp")]),
+        # kept analyzers read again after edits, without a fresh analysis in between: after a mutating method they must serve the
+        # current network (backend.py compares the hypergraph's _version), after an edit of a side object they serve the old one
+        (base, [A(), ["replace", "e1", "r", [["A", 1], ["B", 1]], [["C", 2]]], ["reuse"], ["coeff", "e1", 1, "C", 1], ["reuse"],
+                ["add", "e3", "r", [["C", 1]], [["B", 1]]], ["reuse"], ["rmsp", "B"], ["reread"]]),
+        (sym, [A("bip", False), ["coeff", "e2", 0, "B", 2], ["reuse"], A("bip", False), ["reuse"], ["coeff", "e2", 0, "B", 1], ["rmsp", "A"], ["reuse"]]),
+        (sym, [A("sp"), ["replace", "e2", "r", [["C", 1]], [["B", 1]]], ["reread"], ["coeff", "e1", 0, "A", 3], ["reread"], A(), ["coeff", "e1", 0, "A", 1],
+               ["reuse"], ["replace", "e1", "r", [["A", 1]], [["C", 1]]], ["reuse"]]),
     ]
     out = []
     for rx, ops in scripts:
@@ -1311,6 +1396,8 @@ def _hist_cases(rng, nrand):
             ops.append(op)
             if op[0] not in ("scribble", "reuse", "reread"):
                 cur = _apply_op(cur, op)
+                if rng.random() < 0.4:
+                    ops.append([rng.choice(["reuse", "reread"])])      # the kept analyzers see the edit before any fresh analysis
             ops.append(A(rng.choice(["bip", "bip", "sp"]), rng.random() < 0.6, rng.random() < 0.2))
         out.append(dict(kind="hist", view="bip", stoich=True, nets=[net], rel=["base"], ops=ops))
     return out
